@@ -121,17 +121,30 @@ def failing_decls(log):
     return errs[:20]
 
 
+def import_closure(mods):
+    """relative paths of all project files transitively imported by the given modules"""
+    seen, todo = set(), list(mods)
+    while todo:
+        m = todo.pop()
+        rel = m.replace(".", "/") + ".lean"
+        p = os.path.join(LEAN, rel)
+        if rel in seen or not os.path.exists(p):
+            continue
+        seen.add(rel)
+        for im in re.findall(r"^import\s+(Sonic\.\S+)", open(p).read(), re.M):
+            todo.append(im)
+    return seen
+
+
 def step_audit(pid, modules, required, thorough):
     obs = []
-    # forbidden tokens in every Lean source the library contains
+    # forbidden tokens in every Lean source the property modules and the driver (transitively) import
     bad = []
-    for d, _, files in os.walk(os.path.join(LEAN, "Sonic")):
-        for f in files:
-            if f.endswith(".lean"):
-                p = os.path.join(d, f)
-                m = FORBIDDEN.search(strip_lean_comments(open(p).read()))
-                if m:
-                    bad.append(f"{os.path.relpath(p, LEAN)}: {m.group(0).strip()}")
+    for rel in sorted(import_closure(list(modules) + ["Sonic.Driver"])):
+        p = os.path.join(LEAN, rel)
+        m = FORBIDDEN.search(strip_lean_comments(open(p).read()))
+        if m:
+            bad.append(f"{rel}: {m.group(0).strip()}")
     for extra in ["Main.lean"]:
         m = FORBIDDEN.search(strip_lean_comments(open(os.path.join(LEAN, extra)).read()))
         if m:
@@ -311,6 +324,7 @@ class Run:
         env.update(getattr(self.mod, "CFG_ENV", {}).get(cfg[1], {}))
         if cfg[1] == "san":
             env.setdefault("ASAN_OPTIONS", "detect_leaks=1:malloc_fill_byte=12:allocator_may_return_null=1")
+        env["VERIF_FLUSH"] = "1"
 
         def one(c):
             data = "".join(ln + "\n" for ln in c["lines"])
